@@ -304,6 +304,9 @@ def check(prop, tier):
     for n in failed_names:
         m = re.match(r'^([^.]+)\.safety\.', n)
         failed_core.add(m.group(1) + '.safety' if m else (n.split('.call.')[0] + '.safety' if '.call.' in n else n))
+    # obligations listed as known findings are expected to fail: they are reported separately
+    # (KNOWN-FINDING lines, coverage.known_findings) and not counted as obligations of the claim
+    all_obl = [o for o in all_obl if o not in known_obl]
     discharged = [o for o in all_obl if o not in failed_core]
 
     os.makedirs(EVID, exist_ok=True)
@@ -373,6 +376,7 @@ def check(prop, tier):
             'failed_obligations': failed_names,
             'undecided': [r['undecided'] for r in undecided],
             'known_findings_hit': [k['id'] for k, _f in known_hit],
+            'known_findings': [{'id': k['id'], 'obligation': k['obligation'], 'what': k['what'], 'carve_out': k.get('carve_out')} for k in known_obl.values()],
             'explanation': cfg.get('explanation', ''),
         },
         'assumptions': trusted + ['rule ' + x for x in rules] + cfg.get('trusted_notes', []),
